@@ -131,6 +131,14 @@ FLOW = {
 }
 
 
+# extra postconditions of a flow producer closure (appended to its `ensures`)
+FLOW_EXTRA = {
+    'convert_math_delimited': [
+        '[inner_whitespace_kept_exactly C09] node.kind_s() == SyntaxKind::Space ==> (fitem.0 matches Some(rp) && rp.doc@ == space_piece(node) && !rp.space_before && !rp.space_after)',
+        '[math_body_tight C09] node.kind_s() == SyntaxKind::Math ==> (fitem.0 matches Some(rp) && !rp.space_before && !rp.space_after)',
+    ],
+}
+
 # list-based converters: ordinal of the item-converter closure and the item type
 LISTC = {
     'convert_array': (2, 'ArrayItem', ['(', ')', ',', '']),
@@ -188,6 +196,10 @@ def main():
             out.append('    - node.wf() && tree_wf(node.node())')
             out.append('  ensures')
             out.append('    - [item_docs_closed C04 C06 C12] doc_closed(d@, self.unit_s())')
+        if fn in FLOW_EXTRA:
+            out.append('  ensures')
+            for e in FLOW_EXTRA[fn]:
+                out.append('    - ' + e)
         out += ex.get('closures', [])
         out.append('@end')
         out.append('')
